@@ -86,7 +86,16 @@ def m2_frame_guard(S):
             raise Inconclusive(f"{which}: allocation site not observed")
 
 
-OBLIGATIONS = [m1_extension_accessors, m2_frame_guard]
+def m3_molecule_accessors(S):
+    """every generated accessor of every dynamic schema type on every byte slice accepted by compatible decoding: no panic,
+    result inside the input, nested readers cover ranges verified as well-formed"""
+    from obligations import molecule_m as MM
+    ob = "C16.m3"
+    for t in MM.dynamic_types():
+        MM.access(S, ob, t)
+
+
+OBLIGATIONS = [m1_extension_accessors, m2_frame_guard, m3_molecule_accessors]
 
 _P = os.path.join(os.path.dirname(__file__), "..", "kani", "molecule", "gen_molecule.json")
 _OKFILE = os.path.join(os.path.dirname(__file__), "..", "kani", "molecule", "feasible.json")
@@ -118,11 +127,12 @@ ENGINE = "M+K"
 LEVEL = "other"
 EXPLANATION = ("No-panic/containment harnesses over the generated molecule readers for the schema types CBMC can finish, plus SMT-decided panic conditions of the hand-written "
                "`extension()` accessors and the decompression size guard, on the real code.")
-BOUNDS = {"K": "byte strings up to 24 (quick) / 40 (thorough) bytes for Bytes, BytesOpt, Byte32Vec, ProposalShortIdVec, InIBD", "M": "all values (environment symbols for molecule/snappy calls)",
-          "outside": "molecule tables with dynamic fields (their verify builds a Vec of offsets of symbolic length: CBMC runs out of memory, measured), compact block reconstruction (HashMap + pool), snappy decoder itself, context-free verifiers"}
+BOUNDS = {"K": "byte strings up to 24 (quick) / 40 (thorough) bytes for Bytes, BytesOpt, Byte32Vec, ProposalShortIdVec, InIBD",
+          "M": "m3: byte slices of ANY length for every dynamic schema type (per table at most 1 extra field, per dynamic vector at most 2 items); m1/m2: all values with environment symbols for molecule/snappy calls",
+          "outside": "compact block reconstruction (HashMap + pool), snappy decoder itself, context-free verifiers, view conversions (`into_view`, hashing) on decoded values"}
 ASSUMPTIONS = ["extra_field()/from_slice()/decompress_len()/BytesMut accessors are environment symbols with arbitrary results of their type"]
 TRUSTED = []
-LEVEL_TEXT = ("Bounded model checking of real generated readers for the small types and SMT over MIR for hand-written accessors/guards; two accessor-level panics on decodable "
-              "values are reported as known findings (documented `# Panics` contract / third-party generated code).")
-LEVEL_NOTE = "Partial claim: most protocol messages (tables with dynamic fields) are outside what CBMC can finish; block reconstruction is outside."
+LEVEL_TEXT = ("SMT over the MIR of every generated reader: compatible verification never panics and every accessor on an accepted slice is panic-free and stays inside the input (modular over the schema); "
+              "Kani for five small types at byte level; SMT for hand-written accessors/guards. Two accessor-level panics on decodable values are reported as known findings.")
+LEVEL_NOTE = "Claim: generated accessors of every schema type + hand-written extension()/frame guard. Reconstruction, view conversions, snappy itself are outside."
 TECHNIQUE = "Kani/CBMC harnesses generated from the molecule schema + symbolic execution of rustc MIR -> SMT"
